@@ -203,9 +203,17 @@ func runCheck(id, tier string) int {
 	// checker self-test: positive controls (quick: those marked control; thorough: all mutants)
 	muts := runMutants(p, "slicelabels", tier == "quick")
 	for _, m := range muts {
-		if m.Verdict == "MISSED" || m.Verdict == "BROKEN" {
+		// MISSED: the rule no longer reports a change it is meant to report — the check cannot be
+		// trusted. BROKEN / SKIPPED: the witness edit does not apply to or does not compile on this
+		// tree (the surrounding code changed); that says nothing about the property, so it is
+		// recorded as an observation only.
+		switch m.Verdict {
+		case "MISSED":
 			all = append(all, Obligation{Key: "checker-regression@" + m.ID, Rule: "checker-regression", Status: StIncomplete,
 				Reason: "mutant witness " + m.ID + ": " + m.Verdict + " " + m.Detail})
+		case "BROKEN":
+			all = append(all, Obligation{Key: "mutant-not-applicable@" + m.ID, Rule: "checker-selftest", Status: StObserve,
+				Reason: "mutant witness " + m.ID + " does not compile on this tree: " + m.Detail})
 		}
 	}
 	sortObls(all)
